@@ -329,6 +329,21 @@ func (c *Client) Backup(ctx context.Context, br *command.BackupRequest, nodeAddr
 
 	// The backup stream is unconditionally compressed, so depending on whether
 	// the user requested compression, we may need to decompress the response.
+	if br.Compress {
+		// The caller wants the compressed stream as is. Still run a copy of it
+		// through a gzip reader, discarding the output, so that a stream cut
+		// short by the remote node is detected by the missing gzip trailer
+		// instead of being returned as a complete backup.
+		gzr, err := gzip.NewReader(io.TeeReader(conn, w))
+		if err != nil {
+			return err
+		}
+		gzr.Multistream(false)
+		defer gzr.Close()
+		_, err = io.Copy(io.Discard, gzr)
+		return err
+	}
+
 	var rc io.ReadCloser
 	rc = conn
 	if !br.Compress {
